@@ -275,7 +275,15 @@ def draw_attr_value(draw, a, g, op=None):
             return d.strftime(fmt), True
         return draw_datetime(draw), True
     if k == 'dtnum':
-        if draw(st.booleans()):
+        mode = draw(st.integers(0, 7))
+        if mode == 0:
+            # date-time given as text in one of the two documented formats
+            d = datetime(1970, 1, 1) + timedelta(seconds=draw(st.integers(0, 2 * 10 ** 9)))
+            return d.strftime(draw(st.sampled_from(["%Y/%m/%d %H:%M:%S", "%Y.%m.%d %H:%M:%S"]))), True
+        if mode == 1 and not p.number_pool:
+            # a number given as text ("float time format"): written as that number
+            return draw(st.sampled_from(['12.5', '0', '-3', '1e3', '86400.25', '  7 ', '1_0'])), True
+        if mode < 5:
             return draw_datetime(draw), True
         return draw(nums(p)), True
     if k == 'generic':
@@ -673,7 +681,11 @@ def draw_origin(draw, g, first):
     op['attrs'] = draw_attrs(draw, 'origin', g, exclude=('file_set_number', 'creation_time'))
     if p.pin_origin:
         op['attrs']['file_set_number'] = {'v': draw(st.integers(1, 2 ** 30 - 1)), 'r': 'kw'}
-        op['attrs']['creation_time'] = {'v': draw_datetime(draw), 'r': 'kw'}
+        ct = draw_datetime(draw)
+        if draw(st.integers(0, 5)) == 0:
+            ct = (datetime(1970, 1, 1) + timedelta(seconds=draw(st.integers(0, 2 * 10 ** 9)))).strftime(
+                draw(st.sampled_from(["%Y/%m/%d %H:%M:%S", "%Y.%m.%d %H:%M:%S"])))
+        op['attrs']['creation_time'] = {'v': ct, 'r': 'kw'}
     if p.explicit_origin_refs and draw(st.integers(0, 2)) == 0:
         op['oref'] = draw(st.one_of(st.integers(1, 40), st.sampled_from([127, 128, 129, 200, 255, 256, 16383, 16384, 70000])))
     sn = g.set_for(draw, 'origin')
